@@ -13,8 +13,16 @@ QBoxes(g) == LET hx == TsX(g) \div 2 hy == TsY(g) \div 2 IN
 QPolys(g) == LET tx == TsX(g) ty == TsY(g) IN
   { <<<<g.ox + a, g.oy + b>>, <<g.ox + a + 2 * tx, g.oy + b>>, <<g.ox + a, g.oy + b + 2 * ty>>>> : a \in {-tx, 0, 1}, b \in {-ty - 1, 0} }         \* triangles
   \cup { <<<<g.ox + a, g.oy>>, <<g.ox + a + tx, g.oy + ty>>, <<g.ox + a, g.oy + 2 * ty>>, <<g.ox + a - tx, g.oy + ty>>>> : a \in {0, 1, tx} }        \* diamonds
+\* geometries of several parts: two squares of a quarter tile in one row of tiles / one column / on a diagonal, with whole untouched tiles in between
+QMPolys(g) == LET tx == TsX(g) ty == TsY(g) Sq(x, y) == <<<<x, y>>, <<x + 1, y>>, <<x + 1, y + 1>>, <<x, y + 1>>>> IN
+  { <<Sq(g.ox + 1, g.oy + 1), Sq(g.ox + 1 + dx * tx, g.oy + 1 + dy * ty)>> : dx \in {0, 3, -2}, dy \in {0, 2, -3} } \ { <<Sq(g.ox + 1, g.oy + 1), Sq(g.ox + 1, g.oy + 1)>> }
 CasesFor(g) == UNION { {[op |-> "spec", g |-> g]},
-                       {[op |-> "bbox", g |-> g, q |-> q] : q \in QBoxes(g)},
+                       \* grow: the box is enlarged by grow * 1e-9 units on every side (0: as given; 15: 1.5e-8 - more than the 1e-8 edge-contact allowance, whatever
+                       \* the pixel size: every tile the given box touches is then really overlapped)
+                       {[op |-> "bbox", g |-> g, q |-> q, grow |-> 0] : q \in QBoxes(g)},
+                       {[op |-> "bbox", g |-> g, q |-> <<g.ox + a * TsX(g), g.oy + b * TsY(g), g.ox + (a + w) * TsX(g), g.oy + (b + h) * TsY(g)>>, grow |-> 15] :
+                            a \in {-2, 0, 1}, b \in {-1, 0}, w \in {1, 2}, h \in {1, 3}},
+                       {[op |-> "mpoly", g |-> g, q |-> q, crs |-> "same"] : q \in QMPolys(g)},
                        {[op |-> "poly", g |-> g, q |-> q, crs |-> cm] : q \in QPolys(g), cm \in {"same", "other"}},
                        {[op |-> "sample", g |-> g, idx |-> i] : i \in {<<0, 0>>, <<2, -1>>, <<-3, 1>>}} }
 VARIABLE c
